@@ -44,7 +44,8 @@ TyPool == [ string |-> B("string"), integer |-> B("integer"), uinteger |-> B("ui
             literal |-> LitT2,
             orLiteralNull |-> OrT(<<LitT2, NullT>>) ]
 TyNames == DOMAIN TyPool
-PropNames == {"verifProp", "from", "class", "import", "global"}
+\* "@self": the property is named like the structure it is added to (as Command.command is)
+PropNames == {"verifProp", "from", "class", "import", "global", "@self"}
 \* representative existing declarations: a leaf, a base with dependants, Position, a union
 \* alternative, a params type of an envelope
 Targets == {"Color", "TextDocumentPositionParams", "Position", "MarkedStringWithLanguage", "HoverParams"}
@@ -122,7 +123,8 @@ QuickOK(e) ==
             \/ e.target = "Color" /\ e.name = "verifProp" /\ e.optional = (e.ty \in {"string", "refStruct", "arrayLiteral", "literal", "tuple"})
                /\ e.ty \in {"string", "integer", "refStruct", "refEnum", "refOpenEnum", "arrayRef", "arrayLiteral", "mapRef", "tuple",
                              "orNull", "literal", "orLiteralNull"}
-            \/ e.target = "Color" /\ ((e.name = "from" /\ e.ty = "string" /\ e.optional) \/ (e.name = "class" /\ e.ty = "orNull" /\ ~e.optional))
+            \/ e.target = "Color" /\ ((e.name = "from" /\ e.ty = "string" /\ e.optional) \/ (e.name = "class" /\ e.ty = "orNull" /\ ~e.optional)
+                                     \/ (e.name = "@self" /\ e.ty = "string" /\ ~e.optional))
             \/ e.target \in {"Position", "TextDocumentPositionParams", "MarkedStringWithLanguage", "HoverParams"}
                /\ e.name = "verifProp" /\ e.ty = "orNull" /\ e.optional
       [] e.k = "AddRequest" -> (e.typed = "suffixed" /\ e.params = "ref" /\ e.result = "orNull") \/ (e.typed = "none" /\ e.params = "none" /\ e.result = "null")
